@@ -128,6 +128,7 @@ def _gen_con(rng, cls=None, tail=False):
     cands = rng.sample([0.0, 1.0, -0.5, 2.5], 3)
     ops = [[rng.choice("spz"), rng.choice(cands)] for _ in range(rng.choice([2, 3, 3, 4, 5]))]
     return {"kind": "con", "cls": cls, "ty": ty, "q": q, "nv": nv, "effect": eff, "var": var.tolist(),
+            "zero_var": bool(zero_var and (q == 1 or ty == "tmin-conjunction")),
             "dof": rng.choice(DOFS), "baseline": rng.choice(bl), "tiny": rng.choice(X.TINYS[:5]),
             "dofmax": rng.choice(X.DOFMAXS),
             "order": rng.choice(["C", "C", "F"]), "k": rng.choice([2.0, 0.5, 3.0, 0.125, 1024.0, -1.0, 0.0, 1.0]),
